@@ -105,7 +105,9 @@ impl SymbolsExportsModule {
     }
     pub fn set_default_export(&mut self, export: Rc<SymbolExportDefault>) {
         if self.export_default.is_some() {
-            panic!("Default export already set");
+            // TypeScript rejects a module with two default exports; keep the first one instead of
+            // aborting the whole build
+            return;
         }
         self.export_default = Some(export);
     }
